@@ -58,9 +58,10 @@ FAMILIES = {
     'frozenset': (lambda t: frozenset[t], ['SpyFrozenSet'], False),
     'AbstractSet': (lambda t: cabc.Set[t], ['SpySet', 'SpyFrozenSet', 'SpyAbsSet'], False),
     'Collection': (lambda t: cabc.Collection[t], ['SpyList', 'SpySet', 'SpyCollection', 'SpyDeque'], False),
-    'Iterable': (lambda t: cabc.Iterable[t], ['SpyList', 'SpySet', 'SpyIterable', 'OneShot'], False),
+    'Iterable': (lambda t: cabc.Iterable[t], ['SpyList', 'SpySet', 'SpyIterable', 'OneShot', 'SpySizedIterable'], False),
+    'TIterable': (lambda t: typing.Iterable[t], ['SpyList', 'SpySizedIterable', 'SpyIterable'], False),
     'Container': (lambda t: cabc.Container[t], ['SpyList', 'SpyContainer'], False),
-    'Reversible': (lambda t: cabc.Reversible[t], ['SpyList', 'SpyDeque', 'SpySeq'], False),
+    'Reversible': (lambda t: cabc.Reversible[t], ['SpyList', 'SpyDeque', 'SpySeq', 'SpySizedReversible'], False),
     'dict': (lambda k, v: dict[k, v], ['SpyDict'], True),
     'Mapping': (lambda k, v: cabc.Mapping[k, v], ['SpyDict', 'SpyMap', 'SpyOrderedDict'], True),
     'MutableMapping': (lambda k, v: cabc.MutableMapping[k, v], ['SpyDict'], True),
@@ -203,7 +204,7 @@ def execute(case):
     mapping = FAMILIES[case['fam']][2]
     if mapping:
         probes['mapping_sweeps'] = 1
-    noncollection = case['kind'] in ('SpyIterable', 'SpyContainer', 'OneShot')
+    noncollection = case['kind'] in ('SpyIterable', 'SpyContainer', 'OneShot', 'SpySizedIterable', 'SpySizedReversible')
     if noncollection:
         probes['noncollection_iterables'] = 1
     try:
